@@ -535,7 +535,11 @@ func main() {
 			continue
 		}
 		final := filepath.Join(replayDir, fmt.Sprintf("%s-%d-%d.json", *prop, seed, v.Run))
-		s, out, err := worker(append(base, "VSIM_MODE=shrink", "VSIM_TAPE="+v.TapeFile, "VSIM_REPLAY_OUT="+final, "VSIM_BUDGET_MS=90000"), 20*time.Minute)
+		shrinkMs := "90000"
+		if v := os.Getenv("VERIF_SHRINK_MS"); v != "" {
+			shrinkMs = v // e.g. 3000 when judging many seeded changes in a row (the verdict does not depend on minimisation)
+		}
+		s, out, err := worker(append(base, "VSIM_MODE=shrink", "VSIM_TAPE="+v.TapeFile, "VSIM_REPLAY_OUT="+final, "VSIM_BUDGET_MS="+shrinkMs), 20*time.Minute)
 		minimised := true
 		if err != nil || s.Replay == nil || s.Replay.Signature != sig {
 			// fall back to the unminimised tape
